@@ -490,6 +490,9 @@ def reference_free_arguments_keep_their_identity(ctx, rule):
         if len(outs) != 1 or outs[0].imprecise or outs[0].kind != "return":
             raise AnalysisError("%s: resolve_value is not interpretable precisely on a %s (%s)" % (rule, kind, outs[0].notes[:2] if outs else "no outcome"))
         n += 1
+        from engine.absint import TOP as _TOP
+        if outs[0].value is _TOP or type(outs[0].value) is not type(value):
+            raise AnalysisError("%s: resolve_value returns something the interpreter cannot follow for a %s (%r)" % (rule, kind, outs[0].value))
         if outs[0].value is not value:
             problems.append(kind)
     ctx.abstract_cases += n
@@ -499,3 +502,82 @@ def reference_free_arguments_keep_their_identity(ctx, rule):
                  key=f.qualname + "::rebuilds-reference-free-containers", input="lst = [1, 2]; rx(lst).rx.is_(lst).rx.value -> False")
     else:
         ctx.ok(rule, f, f.node, "resolve_value hands back reference-free containers as the objects they are (%d kinds)" % n)
+
+
+def nested_references_are_resolved(ctx, rule):
+    """resolve_value (with the real resolve_ref interpreted next to it) on containers whose ONLY references sit at depth two:
+    [[P, 0]], {'a': {'v': P}}, ([P],) -- P a Parameter of a source object.  Specification: the result has the same shape
+    with the current value of the source in place of P; nothing of the container is handed back unresolved."""
+    from engine.absint import Interp, Obj, Unsupported
+    f = ctx.repo.func("param.parameterized.resolve_value")
+    cur = Obj("current_value_of_the_source")
+    src = Obj("source_object", x=cur)
+    P_ = Obj("Parameter_x_of_the_source", owner=src, name="x", __kind__="Parameter")
+    zero = Obj("plain_element")
+    T = {"<type list>": list, "<type tuple>": tuple, "<type dict>": dict, "<type set>": set}
+    problems, n = [], 0
+    for desc, value, want in (("[[P, 0]]", [[P_, zero]], [[cur, zero]]), ("{'a': {'v': P}}", {"a": {"v": P_}}, {"a": {"v": cur}}), ("([P],)", ([P_],), ([cur],)), ("[P, [P]]", [P_, [P_]], [cur, [cur]])):
+        def hook(fn, args, kwargs):
+            if fn == "transform_reference" and len(args) == 1:
+                return args[0]
+            if fn == "hasattr":
+                return False
+            if fn in ("inspect.isgeneratorfunction", "iscoroutinefunction"):
+                return False
+            if fn == "isinstance" and len(args) == 2:
+                spec = args[1] if isinstance(args[1], tuple) else (args[1],)
+                r = False
+                for s_ in spec:
+                    if s_ in T:
+                        r = r or isinstance(args[0], T[s_])
+                    elif s_ == "Parameter":
+                        r = r or (isinstance(args[0], Obj) and args[0].attrs.get("__kind__") == "Parameter")
+                    elif s_ == "<type slice>":
+                        r = r or False
+                    else:
+                        raise Unsupported("isinstance against %r" % (s_,))
+                return r
+            if fn == "type" and len(args) == 1 and isinstance(args[0], (list, tuple, dict)):
+                return "<type %s>" % type(args[0]).__name__
+            if fn in T and len(args) == 1:
+                v = hook.it.force(args[0])
+                if isinstance(v, (list, tuple)):
+                    return T[fn](v)
+                return NotImplemented
+            if fn == "getattr" and len(args) == 2 and isinstance(args[0], Obj) and isinstance(args[1], str) and args[1] in args[0].attrs:
+                return args[0].attrs[args[1]]
+            if fn in ("any", "all") and len(args) == 1:
+                v = hook.it.force(args[0])
+                if isinstance(v, (list, tuple)):
+                    ts = [hook.it.truth(x) for x in v]
+                    if all(t in (True, False) for t in ts):
+                        return any(ts) if fn == "any" else all(ts)
+                return NotImplemented
+            if fn == "chain.from_iterable" and len(args) == 1:
+                v = hook.it.force(args[0])
+                return [y for x_ in v for y in x_] if isinstance(v, (list, tuple)) else NotImplemented
+            return NotImplemented
+        it = Interp(ctx.hier, call_hook=hook, inline_module_functions=True, globals={"Parameter": "Parameter", "slice": "<type slice>"})
+        hook.it = it
+        try:
+            outs = it.run_all(f, {"value": value, "recursive": True})
+        except Unsupported as e:
+            raise AnalysisError("%s: absint cannot interpret resolve_value on %s: %s" % (rule, desc, e))
+        if len(outs) != 1 or outs[0].imprecise or outs[0].kind != "return":
+            raise AnalysisError("%s: resolve_value is not interpretable precisely on %s (%s)" % (rule, desc, outs[0].notes[:2] if outs else "no outcome"))
+        n += 1
+
+        def same(a, b):
+            if isinstance(b, (list, tuple)):
+                return type(a) is type(b) and len(a) == len(b) and all(same(x_, y_) for x_, y_ in zip(a, b))
+            if isinstance(b, dict):
+                return isinstance(a, dict) and list(a) == list(b) and all(same(a[k], b[k]) for k in b)
+            return a is b
+        if not same(outs[0].value, want):
+            problems.append("resolve_value(%s) gives %r, specification %s with the source's current value in place of P" % (desc, outs[0].value, desc))
+    ctx.abstract_cases += n
+    if problems:
+        ctx.fail(rule, f, f.node, "%s: a nested_refs parameter given such a container holds Parameter objects instead of values -- at link time and after every update of the source (%d case(s))" % (
+            problems[0], len(problems)), key=f.qualname + "::nested-references-unresolved", input="t = T(l=[[s.param.x, 0]])   # nested_refs=True -> t.l == [[<Parameter x>, 0]]")
+    else:
+        ctx.ok(rule, f, f.node, "resolve_value resolves references at depth two inside lists, tuples and dicts (%d shapes)" % n)
